@@ -64,11 +64,17 @@ def run(chk):
         lib = abs_lib(nl)
         inputs += [("raw2proto", f"abs{nl}", lib), ("raw2gds", f"abs{nl}", lib), ("raw2lef", f"abs{nl}", lib)]
     gs = [c for c in gen("raw", "MC_GdsSemantics", "Emit") if not c["must_err"]]
-    for i, c in enumerate(rng.sample(gs, min(len(gs), 60 if thorough else 25))):
+    fan = [c for c in gs if any(st["name"] == "fan_top" for st in c["lib"])]
+    chk.require(len(fan) >= 3, "fan-out GDS inputs missing")
+    for i, c in enumerate(fan + rng.sample(gs, min(len(gs), 60 if thorough else 25))):
         inputs.append(("gds2raw", f"gdssem{i}", c["lib"]))
     rg = gen("raw", "MC_RawGds", "Emit")
-    for i, c in enumerate(rng.sample(rg, min(len(rg), 80 if thorough else 25))):
+    fanr = [c for c in rg if any(cl["name"] == "fan_top" for cl in c["lib"]["cells"])]
+    chk.require(len(fanr) >= 2, "fan-out raw inputs missing")
+    for i, c in enumerate(fanr + rng.sample(rg, min(len(rg), 80 if thorough else 25))):
         inputs.append(("raw2gds", f"rawgds{i}", add_defaults(c["lib"])))
+        if i < len(fanr):
+            inputs.append(("raw2proto", f"rawgds{i}", add_defaults(c["lib"])))
     lr = [c for c in gen("raw", "MC_LefRaw", "Emit") if not c["must_err"]]
     multi = [c for c in lr if len(c["toks"]) > 60] + rng.sample(lr, 10)
     for i, c in enumerate(multi):
